@@ -242,7 +242,7 @@ func checkC08(c *Ctx, rt *rapid.T) {
 
 func init() {
 	Register(&Prop{ID: "C08", Check: checkC08, Replay: judgeC08, Components: componentsA,
-		Rule: "generated worlds (plain / mixed / hostile file names, exotic reference names, objects reachable only through annotated tags, references and ROOTs naming trees and blobs, ROOT forms oid, ref, oid^{tree}, oid^n, tree:path, tag^{}) x name styles x table / JSON v1 / JSON v2 x adversarial delivery orders; every cited object id must be reachable, of the right kind and in the model's witness set for the metric; every description is handed to real `git rev-parse --verify --end-of-options` in the materialised repository and must print exactly the cited id; --names=none cites nothing. non-trivial: >= 2 descriptions resolved by git; distinct by scenario hash"})
+		Rule: "generated worlds (plain / mixed / hostile file names, exotic reference names, objects reachable only through annotated tags, references and ROOTs naming trees and blobs, ROOT forms oid, ref, oid^{tree}, oid^n, tree:path, tag^{}, treeish: with an empty path) x name styles x table / JSON v1 / JSON v2 x adversarial delivery orders; every cited object id must be reachable, of the right kind and in the model's witness set for the metric; every description is handed to real `git rev-parse --verify --end-of-options` in the materialised repository and must print exactly the cited id; --names=none cites nothing. non-trivial: >= 2 descriptions resolved by git; distinct by scenario hash"})
 }
 
 func init() {
